@@ -29,6 +29,13 @@ static const double EPS = std::numeric_limits<double>::epsilon();
 static const double DMIN = std::numeric_limits<double>::denorm_min();
 static const double INF = std::numeric_limits<double>::infinity();
 static std::string qs(Q x) { return q128::str(x, 22); }
+// worst-case bookkeeping: only finite ratios (a NaN/inf result is a failure, reported as such)
+template <class F> static void cworst(Ctx& ctx, const std::string& name, double v, F where) { if (std::isfinite(v)) ctx.worstf(name, v, where); }
+// every failure goes through here (C15_DEBUG=1 lists them all on stderr: ctx keeps only 4 examples per class)
+static void cfail(Ctx& ctx, const std::string& key, const std::string& msg, const mc::Fields& f = {}) {
+  if (getenv("C15_DEBUG")) { std::string t; for (auto& kv : f) t += " " + kv.first + "=" + kv.second; fprintf(stderr, "DBG %s ::%s :: %s\n", key.c_str(), t.c_str(), msg.c_str()); }
+  ctx.fail(key, msg, f);
+}
 static double dmax(double a, double b) { return a > b ? a : b; }
 
 // ---- tolerances, in units of eps (Appendix B; where no figure is documented: 4 x worst observed on the unchanged tree, >= 16)
@@ -85,14 +92,14 @@ static double tan_err(double got, Q ref, Q floor_abs = 0) {
   if (isinfq(ref) || std::isinf(got)) return (isinfq(ref) && std::isinf(got) && ((ref > 0) == (got > 0))) ? 0 : ((isinfq(ref) && std::fabs(got) > 1e308) || (std::isinf(got) && fabsq(ref) > (Q)8e307) ? 0 : INF);
   if (ref == 0) return got == 0 ? 0 : INF;
   if (got != 0 && (got > 0) != (ref > 0)) return INF;
-  Q d = fabsq((Q)got - ref) - 2 * (Q)DMIN - floor_abs; if (d < 0) d = 0;
+  Q d = fabsq((Q)got - ref) - 8 * (Q)DMIN - floor_abs; if (d < 0) d = 0;        // denormal results are quantised to DMIN (several operations)
   return (double)(d / fabsq(ref));
 }
 // error of an angle (radians) between an AuxAngle (y, x) and a reference tangent in the same half plane x >= 0; relative for
 // small angles, absolute otherwise:  |delta| / min(1, |ref angle|)
 static double ang_err(double y, double x, Q tref) {
   Q ar = atanq(tref), ag = atan2q((Q)y, (Q)x);
-  Q d = fabsq(ag - ar) - 2 * (Q)DMIN; if (d < 0) d = 0;
+  Q d = fabsq(ag - ar) - 8 * (Q)DMIN; if (d < 0) d = 0;      // a denormal angle is quantised (several operations)
   Q den = fabsq(ar) < 1 ? fabsq(ar) : 1;
   if (den == 0) return d == 0 ? 0 : INF;
   return (double)(d / den);
@@ -117,43 +124,46 @@ static void check_aux(Ctx& ctx, EnvE& v, int from, const std::vector<double>& al
     if (!ex && !v.small) continue;                              // series method: documented for |f| <= 1/150
     const char* meth = ex ? "exact" : "series";
     std::string base = std::string("aux ") + v.d->name + " " + AUXN[from] + "->" + AUXN[to] + " " + meth;
-    auto FF = [&](const std::string& kind) { mc::Fields F = F0; F.push_back({"to", AUXN[to]}); F.push_back({"method", meth}); F.push_back({"kind", kind}); return F; };
+    const char* tcls = "normal";
+    auto FF = [&](const std::string& kind) { mc::Fields F = F0; F.push_back({"to", AUXN[to]}); F.push_back({"method", meth}); F.push_back({"tan_class", tcls}); F.push_back({"kind", kind}); return F; };
     double prev = -INF; bool havep = false;
     std::vector<double> outs;
     for (double t : al) {
       Ctx::Case cs(ctx);
       std::string key = base + " tan " + fx(t);
+      tcls = std::fabs(t) == DMIN ? "denorm_min" : (std::fabs(t) == std::numeric_limits<double>::max() ? "dbl_max" : "normal");
       AuxAngle z = mk(t), r;
       int sg = mc::crashed([&] { r = A.Convert(from, to, z, ex); });
-      if (sg) { ctx.fail(key, "Convert crashed with signal " + fmti(sg), FF("crash")); continue; }
+      if (sg) { cfail(ctx, key, "Convert crashed with signal " + fmti(sg), FF("crash")); continue; }
       double rt = r.tan();
       outs.push_back(rt);
       Q ref = v.conv(from, to, t);
-      if (r.x() < 0 || std::isnan(rt)) { ctx.fail(key, "result (" + fx(r.y()) + "," + fx(r.x()) + ") is not a latitude in [-90,90]", FF("range")); continue; }
+      if (r.x() < 0 || std::isnan(rt)) { cfail(ctx, key, "result (" + fx(r.y()) + "," + fx(r.x()) + ") is not a latitude in [-90,90]", FF("range")); continue; }
       // a denormal tan(phi) in the middle of the chain from -> phi -> to is quantised to DMIN, which the second step magnifies
       Q tph = v.tphi(from, t), chain = (ref != 0 && tph != 0 && !isinfq(ref) && !isinfq(tph)) ? 2 * (Q)DMIN * fabsq(ref / tph) : (Q)0;
       double cond = 1 + v.kappa(from, to, t) / 8;
+      const bool nrm = !strcmp(tcls, "normal");
       if (ex) {
         const char* cls = from < 3 && to < 3 ? "closed" : "newton";
         double e = tan_err(rt, ref, chain), tol = C15tol(std::string("aux.exact.") + cls, v.reg) * EPS * cond;
-        ctx.worstf(std::string("aux.exact_tan_relerr_over_tol.") + cls + "." + v.reg, e / tol, [&] { return key; });
-        if (!(e <= tol)) ctx.fail(key, "tan = " + fx(rt) + " differs from the definition " + qs(ref) + " by " + fmt(e / EPS) + " eps (relative)", FF("exact-value"));
+        if (nrm) cworst(ctx, std::string("aux.exact_tan_relerr_over_tol.") + cls + "." + v.reg, e / tol, [&] { return key; });
+        if (!(e <= tol)) cfail(ctx, key, "tan = " + fx(rt) + " differs from the definition " + qs(ref) + " by " + fmt(e / EPS) + " eps (relative)", FF("exact-value"));
       } else {
         // series: accuracy of the ANGLE (the series adds a correction in radians to the normalized angle)
         double e = std::isinf(t) || t == 0 ? tan_err(rt, ref) : ang_err(r.y(), r.x(), ref), tol = C15tol("aux.series", v.reg) * EPS;
-        ctx.worstf("aux.series_angle_err_over_tol", e / tol, [&] { return key; });
-        if (!(e <= tol)) ctx.fail(key, "series result tan = " + fx(rt) + " differs from the definition " + qs(ref) + " by " + fmt(e / EPS) + " eps in the angle", FF("series-value"));
+        if (nrm) cworst(ctx, "aux.series_angle_err_over_tol", e / tol, [&] { return key; });
+        if (!(e <= tol)) cfail(ctx, key, "series result tan = " + fx(rt) + " differs from the definition " + qs(ref) + " by " + fmt(e / EPS) + " eps in the angle", FF("series-value"));
         // series <-> exact agreement
         AuxAngle rx = A.Convert(from, to, z, true);
         double e2 = std::isinf(t) || t == 0 ? (mc::same_bits(rx.tan(), rt) || rx.tan() == rt ? 0 : INF) : ang_err(r.y(), r.x(), (Q)rx.tan()), tol2 = C15tol("aux.series_vs_exact", v.reg) * EPS;
-        ctx.worstf("aux.series_vs_exact_over_tol", e2 / tol2, [&] { return key; });
-        if (!(e2 <= tol2)) ctx.fail(key + " sx", "series and exact methods differ by " + fmt(e2 / EPS) + " eps in the angle", FF("series-vs-exact"));
+        if (nrm) cworst(ctx, "aux.series_vs_exact_over_tol", e2 / tol2, [&] { return key; });
+        if (!(e2 <= tol2)) cfail(ctx, key + " sx", "series and exact methods differ by " + fmt(e2 / EPS) + " eps in the angle", FF("series-vs-exact"));
       }
       // fixed points
-      if (t == 0 && !(rt == 0 && std::signbit(rt) == std::signbit(t))) ctx.fail(key + " fix0", "0 is not fixed: tan = " + fx(rt), FF("fix-0"));
-      if (std::isinf(t) && !(std::isinf(rt) && (rt > 0) == (t > 0))) ctx.fail(key + " fix90", "+-90 is not fixed: tan = " + fx(rt), FF("fix-90"));
+      if (t == 0 && !(rt == 0 && std::signbit(rt) == std::signbit(t))) cfail(ctx, key + " fix0", "0 is not fixed: tan = " + fx(rt), FF("fix-0"));
+      if (std::isinf(t) && !(std::isinf(rt) && (rt > 0) == (t > 0))) cfail(ctx, key + " fix90", "+-90 is not fixed: tan = " + fx(rt), FF("fix-90"));
       // monotone along the ordered axis
-      if (havep && !(rt >= prev)) ctx.fail(key + " mono", "not monotonic: tan " + fx(rt) + " after " + fx(prev), FF("monotone"));
+      if (havep && !(rt >= prev)) cfail(ctx, key + " mono", "not monotonic: tan " + fx(rt) + " after " + fx(prev), FF("monotone"));
       prev = rt; havep = true;
       // inverse composition (exact method): to -> from brings the tangent back
       if (ex && from != to && std::isfinite(t) && t != 0) {
@@ -161,8 +171,8 @@ static void check_aux(Ctx& ctx, EnvE& v, int from, const std::vector<double>& al
         Q fl = 2 * (Q)DMIN * (1 + fabsq((Q)t / (Q)rt) + (tph != 0 ? fabsq((Q)t / tph) : (Q)0));
         double condrt = 1 + (v.kappa(from, to, t) + (from == merid::CHI ? v.kappa(to, from, (double)ref) : 0)) / 8;
         double e = tan_err(b.tan(), (Q)t, fl), tol = C15tol("aux.roundtrip", v.reg) * EPS * condrt;
-        ctx.worstf(std::string("aux.roundtrip_tan_relerr_over_tol.") + v.reg, e / tol, [&] { return key; });
-        if (!(e <= tol)) ctx.fail(key + " inv", "conversion composed with its inverse gives tan " + fx(b.tan()) + " (" + fmt(e / EPS) + " eps from the input)", FF("inverse-composition"));
+        if (nrm) cworst(ctx, std::string("aux.roundtrip_tan_relerr_over_tol.") + v.reg, e / tol, [&] { return key; });
+        if (!(e <= tol)) cfail(ctx, key + " inv", "conversion composed with its inverse gives tan " + fx(b.tan()) + " (" + fmt(e / EPS) + " eps from the input)", FF("inverse-composition"));
       }
       if (ctx.want_sample()) ctx.sample(key + " -> " + fmt(rt));
     }
@@ -171,7 +181,9 @@ static void check_aux(Ctx& ctx, EnvE& v, int from, const std::vector<double>& al
       Ctx::Case cs(ctx);
       for (size_t i = 0; i < outs.size(); ++i) {
         double p = outs[i], m = outs[outs.size() - 1 - i];
-        if (!(p == -m)) { ctx.fail(base + " odd " + fx(al[i]), "not odd: f(" + fx(al[i]) + ") = " + fx(p) + ", f(-x) = " + fx(m), FF("odd")); break; }
+        if (std::isnan(p) && std::isnan(m)) continue;                 // reported by the range predicate
+        tcls = std::fabs(al[i]) == DMIN ? "denorm_min" : (std::fabs(al[i]) == std::numeric_limits<double>::max() ? "dbl_max" : "normal");
+        if (!(p == -m)) { cfail(ctx, base + " odd " + fx(al[i]), "not odd: f(" + fx(al[i]) + ") = " + fx(p) + ", f(-x) = " + fx(m), FF("odd")); break; }
       }
     }
   }
@@ -196,16 +208,16 @@ static void check_aux_degrees(Ctx& ctx, EnvE& v, int from) {
       Q want = 360 * (Q)m + merid::atand(tr);
       if (std::fabs(red) == 90 || red == 0) {
         F.push_back({"kind", "degrees-fixed-point"});
-        if (!(r == d)) ctx.fail(key, "Convert(" + fmt(d) + " deg) = " + fx(r) + ": 0 and +-90 (+ 360 n) must be fixed", F);
+        if (!(r == d)) cfail(ctx, key, "Convert(" + fmt(d) + " deg) = " + fx(r) + ": 0 and +-90 (+ 360 n) must be fixed", F);
         continue;
       }
       Q e = fabsq((Q)r - want);
       // the reduced angle carries the accuracy; the addition of 360 m rounds once more
-      Q den = fabsq(merid::atand(tr)); if (den > 1) den = 1;
+      Q den = fabsq(merid::atand(tr));                 // relative to the (reduced) angle in degrees
       double rel = (double)(e / den), tol = C15tol(ex ? "aux.degrees.exact" : "aux.degrees.series", v.reg) * EPS + (m != 0 ? 4 * EPS * std::fabs(d) / (double)den : 0);
-      ctx.worstf(std::string("aux.degrees_err_over_tol.") + meth + "." + v.reg, rel / tol, [&] { return key; });
+      cworst(ctx, std::string("aux.degrees_err_over_tol.") + meth + "." + v.reg, rel / tol, [&] { return key; });
       F.push_back({"kind", "degrees-value"});
-      if (!(rel <= tol)) ctx.fail(key, "Convert(" + fmt(d) + " deg) = " + fx(r) + " but the definition gives " + qs(want) + " (" + fmt(rel / EPS) + " eps)", F);
+      if (!(rel <= tol)) cfail(ctx, key, "Convert(" + fmt(d) + " deg) = " + fx(r) + " but the definition gives " + qs(want) + " (" + fmt(rel / EPS) + " eps)", F);
     }
   }
 }
@@ -217,25 +229,27 @@ static void check_aux_misc(Ctx& ctx, EnvE& v, const std::vector<double>& al) {
   for (int aux = 0; aux < 6; ++aux) for (double t : al) {
     Ctx::Case cs(ctx);
     std::string key = std::string("auxmisc ") + v.d->name + " " + AUXN[aux] + " tan " + fx(t);
+    const char* tcls = std::fabs(t) == DMIN ? "denorm_min" : (std::fabs(t) == std::numeric_limits<double>::max() ? "dbl_max" : "normal");
+    auto FF = [&](const std::string& kind) { mc::Fields F = F0; F.push_back({"aux", AUXN[aux]}); F.push_back({"tan_class", tcls}); F.push_back({"kind", kind}); return F; };
     double diff = -777; int niter = -777;
     AuxAngle r = v.aux.ToAuxiliary(aux, mk(t), &diff), r0 = v.aux.ToAuxiliary(aux, mk(t)), c = v.aux.Convert(0, aux, mk(t), true);
     if (!mc::same_bits(r.tan(), r0.tan()) || !(r.tan() == c.tan() || (std::isnan(r.tan()) && std::isnan(c.tan()))))
-      ctx.fail(key + " toaux", "ToAuxiliary with/without diff and Convert(phi->aux, exact) disagree", FF("toaux-consistency"));
+      cfail(ctx, key + " toaux", "ToAuxiliary with/without diff and Convert(phi->aux, exact) disagree", FF("toaux-consistency"));
     AuxAngle b = v.aux.FromAuxiliary(aux, mk(t), &niter), b0 = v.aux.FromAuxiliary(aux, mk(t));
-    if (!mc::same_bits(b.tan(), b0.tan())) ctx.fail(key + " fromaux", "FromAuxiliary with/without niter disagree", FF("fromaux-consistency"));
+    if (!mc::same_bits(b.tan(), b0.tan())) cfail(ctx, key + " fromaux", "FromAuxiliary with/without niter disagree", FF("fromaux-consistency"));
     Q ref = v.conv(aux, 0, t);
     double e = tan_err(b.tan(), ref), tol = C15tol("aux.exact.newton", v.reg) * EPS;
-    ctx.worstf(std::string("aux.fromauxiliary_relerr_over_tol.") + v.reg, e / tol, [&] { return key; });
-    if (!(e <= tol)) ctx.fail(key + " fromaux-value", "FromAuxiliary tan = " + fx(b.tan()) + " differs from the definition " + qs(ref) + " by " + fmt(e / EPS) + " eps", FF("fromaux-value"));
-    if (!(niter >= 0 && niter < 1000)) ctx.fail(key + " niter", "FromAuxiliary did not converge (" + fmti(niter) + " iterations)", FF("newton-iterations"));
+    if (!strcmp(tcls, "normal")) cworst(ctx, std::string("aux.fromauxiliary_relerr_over_tol.") + v.reg, e / tol, [&] { return key; });
+    if (!(e <= tol)) cfail(ctx, key + " fromaux-value", "FromAuxiliary tan = " + fx(b.tan()) + " differs from the definition " + qs(ref) + " by " + fmt(e / EPS) + " eps", FF("fromaux-value"));
+    if (!(niter >= 0 && niter < 1000)) cfail(ctx, key + " niter", "FromAuxiliary did not converge (" + fmti(niter) + " iterations)", FF("newton-iterations"));
     ctx.worst("aux.newton_iterations(reported)", niter, key);
     // derivative d tan(aux)/d tan(phi) against a symmetric difference of the definition in __float128
     if (std::isfinite(t) && t > 0 && t >= 1e-300 && t <= 1e300) {
       Q hq = 1e-9Q, tp = (Q)t * (1 + hq), tm = (Q)t * (1 - hq);
       Q dref = (merid::to_aux(v.E, aux, tp) - merid::to_aux(v.E, aux, tm)) / (tp - tm);
       double ed = (double)(fabsq((Q)diff - dref) / fabsq(dref));
-      ctx.worstf("aux.derivative_relerr(reported)", ed, [&] { return key; });
-      if (!(ed <= 1e-6)) ctx.fail(key + " diff", "d tan(aux)/d tan(phi) = " + fx(diff) + " but the definition gives " + qs(dref), FF("derivative"));
+      cworst(ctx, "aux.derivative_relerr(reported)", ed, [&] { return key; });
+      if (!(ed <= 1e-6)) cfail(ctx, key + " diff", "d tan(aux)/d tan(phi) = " + fx(diff) + " but the definition gives " + qs(dref), FF("derivative"));
     }
   }
   {
@@ -244,20 +258,20 @@ static void check_aux_misc(Ctx& ctx, EnvE& v, const std::vector<double>& al) {
     double rr = v.aux.RectifyingRadius(true), c2 = v.aux.AuthalicRadiusSquared(true);
     double e1 = (double)(fabsq((Q)rr - merid::rectifying_radius(v.E)) / merid::rectifying_radius(v.E)), e2 = (double)(fabsq((Q)c2 - merid::authalic_radius2(v.E)) / merid::authalic_radius2(v.E));
     ctx.worst("aux.rectifying_radius_relerr_over_tol", e1 / (C15tol("aux.radii", v.reg) * EPS), key); ctx.worst("aux.authalic_radius2_relerr_over_tol", e2 / (C15tol("aux.radii", v.reg) * EPS), key);
-    if (!(e1 <= C15tol("aux.radii", v.reg) * EPS)) ctx.fail(key + " rr", "RectifyingRadius(exact) = " + fx(rr) + " vs " + qs(merid::rectifying_radius(v.E)) + ": " + fmt(e1 / EPS) + " eps", FF("rectifying-radius"));
-    if (!(e2 <= C15tol("aux.radii", v.reg) * EPS)) ctx.fail(key + " c2", "AuthalicRadiusSquared(exact) = " + fx(c2) + " vs " + qs(merid::authalic_radius2(v.E)) + ": " + fmt(e2 / EPS) + " eps", FF("authalic-radius"));
+    if (!(e1 <= C15tol("aux.radii", v.reg) * EPS)) cfail(ctx, key + " rr", "RectifyingRadius(exact) = " + fx(rr) + " vs " + qs(merid::rectifying_radius(v.E)) + ": " + fmt(e1 / EPS) + " eps", FF("rectifying-radius"));
+    if (!(e2 <= C15tol("aux.radii", v.reg) * EPS)) cfail(ctx, key + " c2", "AuthalicRadiusSquared(exact) = " + fx(c2) + " vs " + qs(merid::authalic_radius2(v.E)) + ": " + fmt(e2 / EPS) + " eps", FF("authalic-radius"));
     if (v.small) {
       double rs = v.aux.RectifyingRadius(false), cs2 = v.aux.AuthalicRadiusSquared(false);
       e1 = (double)(fabsq((Q)rs - merid::rectifying_radius(v.E)) / merid::rectifying_radius(v.E)); e2 = (double)(fabsq((Q)cs2 - merid::authalic_radius2(v.E)) / merid::authalic_radius2(v.E));
       ctx.worst("aux.rectifying_radius_series_relerr_over_tol", e1 / (C15tol("aux.radii", v.reg) * EPS), key); ctx.worst("aux.authalic_radius2_series_relerr_over_tol", e2 / (C15tol("aux.radii", v.reg) * EPS), key);
-      if (!(e1 <= C15tol("aux.radii", v.reg) * EPS)) ctx.fail(key + " rrs", "RectifyingRadius(series) = " + fx(rs) + ": " + fmt(e1 / EPS) + " eps from the definition", FF("rectifying-radius-series"));
-      if (!(e2 <= C15tol("aux.radii", v.reg) * EPS)) ctx.fail(key + " c2s", "AuthalicRadiusSquared(series) = " + fx(cs2) + ": " + fmt(e2 / EPS) + " eps from the definition", FF("authalic-radius-series"));
+      if (!(e1 <= C15tol("aux.radii", v.reg) * EPS)) cfail(ctx, key + " rrs", "RectifyingRadius(series) = " + fx(rs) + ": " + fmt(e1 / EPS) + " eps from the definition", FF("rectifying-radius-series"));
+      if (!(e2 <= C15tol("aux.radii", v.reg) * EPS)) cfail(ctx, key + " c2s", "AuthalicRadiusSquared(series) = " + fx(cs2) + ": " + fmt(e2 / EPS) + " eps from the definition", FF("authalic-radius-series"));
     }
     // the alternative constructor from the semi-axes describes the same ellipsoid
     AuxLatitude B = AuxLatitude::axes(v.a, v.a * (1 - v.f));
     double t1 = v.aux.Convert(0, 3, AuxAngle(1.0, 1.0), true).tan(), t2 = B.Convert(0, 3, AuxAngle(1.0, 1.0), true).tan();
-    if (!(std::fabs(t1 - t2) <= 64 * EPS * t1 * dmax(1, 1 / (1 - v.f)))) ctx.fail(key + " axes", "AuxLatitude::axes(a,b) and AuxLatitude(a,f) disagree: " + fx(t1) + " vs " + fx(t2), FF("axes-constructor"));
-    if (v.aux.EquatorialRadius() != v.a || v.aux.Flattening() != v.f || v.aux.PolarSemiAxis() != v.a * (1 - v.f)) ctx.fail(key + " insp", "AuxLatitude inspectors", FF("inspectors"));
+    if (!(std::fabs(t1 - t2) <= 64 * EPS * t1 * dmax(1, 1 / (1 - v.f)))) cfail(ctx, key + " axes", "AuxLatitude::axes(a,b) and AuxLatitude(a,f) disagree: " + fx(t1) + " vs " + fx(t2), FF("axes-constructor"));
+    if (v.aux.EquatorialRadius() != v.a || v.aux.Flattening() != v.f || v.aux.PolarSemiAxis() != v.a * (1 - v.f)) cfail(ctx, key + " insp", "AuxLatitude inspectors", FF("inspectors"));
   }
 }
 // dense monotonicity sweep in degrees (no oracle): strictly increasing on a 0.25 degree grid, all pairs, both methods
@@ -271,7 +285,7 @@ static void check_aux_monotone(Ctx& ctx, EnvE& v) {
       if (!(r >= prev) || !(std::fabs(r) <= 90) || (k == 0 && r != 0) || (std::abs(k) == 360 && r != d)) { if (!bad) where = d; ++bad; }
       prev = r;
     }
-    if (bad) ctx.fail(std::string("mono ") + v.d->name + " " + AUXN[from] + "->" + AUXN[to] + (ex ? " exact" : " series"), "decreasing / out of range / fixed points moved on the 0.25 degree grid, first at " + fmt(where) + " (" + fmti(bad) + " places)",
+    if (bad) cfail(ctx, std::string("mono ") + v.d->name + " " + AUXN[from] + "->" + AUXN[to] + (ex ? " exact" : " series"), "decreasing / out of range / fixed points moved on the 0.25 degree grid, first at " + fmt(where) + " (" + fmti(bad) + " places)",
                       {{"ellipsoid", v.d->name}, {"from", AUXN[from]}, {"to", AUXN[to]}, {"method", ex ? "exact" : "series"}, {"kind", "monotone-grid"}});
   }
 }
@@ -283,8 +297,8 @@ static void rel_check(Ctx& ctx, const std::string& key, const char* what, double
   double e = ref == 0 ? (double)d : (double)(d / fabsq(ref));
   if (isinfq(ref) || std::isinf(got)) e = (isinfq(ref) && std::isinf(got) && (ref > 0) == (got > 0)) ? 0 : INF;
   if (std::isnan(got)) e = INF;
-  ctx.worstf(std::string("ellipsoid.") + what + "_relerr_over_tol" + (*g_reg ? "." : "") + g_reg, e / (tol_eps * EPS), [&] { return key; });
-  if (!(e <= tol_eps * EPS)) { mc::Fields F = F0; F.push_back({"kind", what}); ctx.fail(key + " " + what, std::string(what) + " = " + fx(got) + " but the definition gives " + qs(ref) + " (" + fmt(e / EPS) + " eps)", F); }
+  cworst(ctx, std::string("ellipsoid.") + what + "_relerr_over_tol" + (*g_reg ? "." : "") + g_reg, e / (tol_eps * EPS), [&] { return key; });
+  if (!(e <= tol_eps * EPS)) { mc::Fields F = F0; F.push_back({"kind", what}); cfail(ctx, key + " " + what, std::string(what) + " = " + fx(got) + " but the definition gives " + qs(ref) + " (" + fmt(e / EPS) + " eps)", F); }
 }
 static void check_ellipsoid(Ctx& ctx, EnvE& v, bool thorough) {
   const Ellipsoid& L = v.ell; const merid::Ell& E = v.E;
@@ -307,7 +321,7 @@ static void check_ellipsoid(Ctx& ctx, EnvE& v, bool thorough) {
     rel_check(ctx, ek, "EccentricitySq", L.EccentricitySq(), (a * a - b * b) / (a * a), TOL_ELL, F0);
     rel_check(ctx, ek, "SecondEccentricitySq", L.SecondEccentricitySq(), (a * a - b * b) / (b * b), TOL_ELL, F0);
     rel_check(ctx, ek, "ThirdEccentricitySq", L.ThirdEccentricitySq(), (a * a - b * b) / (a * a + b * b), TOL_ELL, F0);
-    if (L.EquatorialRadius() != v.a) ctx.fail(ek + " a", "EquatorialRadius", {{"kind", "inspectors"}});
+    if (L.EquatorialRadius() != v.a) cfail(ctx, ek + " a", "EquatorialRadius", {{"kind", "inspectors"}});
   }
   // the same quantities from the other classes
   {
@@ -373,7 +387,7 @@ static void check_ellipsoid(Ctx& ctx, EnvE& v, bool thorough) {
         Q amp = fabsq(ref) / fabsq(D) / fabsq((Q)lat);           // relative magnification
         if (!(amp < 1e6Q)) { ctx.count("inverse_latitude_saturated_not_compared"); continue; }
         rel_check(ctx, key, (std::string("Inverse") + c.name).c_str(), c.back, (Q)lat, TOL_ELL_LAT * (1 + (double)amp), F0, fl);
-      } else if (!(c.back == lat)) { mc::Fields F = F0; F.push_back({"kind", std::string("Inverse") + c.name}); ctx.fail(key + " inv-fixed", std::string("Inverse") + c.name + "(" + fmt(c.got) + ") = " + fx(c.back) + ": 0 and +-90 must be fixed", F); }
+      } else if (!(c.back == lat)) { mc::Fields F = F0; F.push_back({"kind", std::string("Inverse") + c.name}); cfail(ctx, key + " inv-fixed", std::string("Inverse") + c.name + "(" + fmt(c.got) + ") = " + fx(c.back) + ": 0 and +-90 must be fixed", F); }
     }
     // isometric latitude (degrees); +-90 -> large finite value that inverts to +-90
     {
@@ -382,7 +396,7 @@ static void check_ellipsoid(Ctx& ctx, EnvE& v, bool thorough) {
         // the defining expression is +-infinity; Ellipsoid.hpp promises "some large but finite value such that InverseIsometricLatitude
         // returns the original value": the library returns +-inf (which does invert to +-90).  Both are accepted.
         if (std::isinf(psi)) ctx.note("Ellipsoid::IsometricLatitude(+-90) returns +-infinity although Ellipsoid.hpp documents a 'large but finite value'; the value equals the defining expression and inverts to +-90, so it is accepted (documentation discrepancy, reported)");
-        if (!(!std::isnan(psi) && std::fabs(psi) > 1000 && (psi > 0) == (lat > 0) && back == lat)) ctx.fail(key + " iso90", "IsometricLatitude(+-90) = " + fx(psi) + ", inverse " + fx(back) + " (must be +-inf or a large value inverting to +-90)", {{"ellipsoid", v.d->name}, {"kind", "isometric-pole"}});
+        if (!(!std::isnan(psi) && std::fabs(psi) > 1000 && (psi > 0) == (lat > 0) && back == lat)) cfail(ctx, key + " iso90", "IsometricLatitude(+-90) = " + fx(psi) + ", inverse " + fx(back) + " (must be +-inf or a large value inverting to +-90)", {{"ellipsoid", v.d->name}, {"kind", "isometric-pole"}});
       } else {
         Q ref = (lat < 0 ? -1 : 1) * merid::psi_iso(E, fabsq(t)) * 180 / q128::pi();
         if (lat == 0) ref = 0;
@@ -453,6 +467,7 @@ static void check_shape_conversions(Ctx& ctx) {
       Q kf = f == 0 ? (Q)1 : fabsq((fwd(i, (Q)f * (1 + h)) - fwd(i, (Q)f * (1 - h))) / (2 * h * fwd(i, (Q)f)));
       Q ki = x == 0 ? (Q)1 : fabsq((inv(i, (Q)x * (1 + h)) - inv(i, (Q)x * (1 - h))) / (2 * h * inv(i, (Q)x)));
       rel_check(ctx, key, (std::string("FlatteningTo") + names[i]).c_str(), x, fwd(i, (Q)f), TOL_SHAPE * (1 + (double)kf), F0, 2 * (Q)DMIN);
+      if (isnanq(ki)) { ctx.count("shape_inverse_at_domain_boundary_not_compared"); continue; }       // the forward value rounded onto the boundary of the domain (e^2 = 1)
       rel_check(ctx, key, (std::string(names[i]) + "ToFlattening").c_str(), back, inv(i, (Q)x), TOL_SHAPE * (1 + (double)ki), F0, 2 * (Q)DMIN);
     }
   }
@@ -490,14 +505,17 @@ static void check_ellint(Ctx& ctx, const Obj& o, bool thorough) {
   EllipticFunction e = o.four ? EllipticFunction(o.k2, o.a2, o.kp2, o.ap2) : EllipticFunction(o.k2, o.a2);
   EllCache c; c.m = o.four ? ellf::mod4(o.k2, o.a2, o.kp2, o.ap2) : ellf::mod(o.k2, o.a2);
   const ellf::Mod& m = c.m;
+  const bool bothtiny = o.four && o.kp2 > 0 && o.kp2 < 1e-15 && o.ap2 > 0 && o.ap2 < 1e-15;
   // regime: moderate = k2, alpha2 in [-1, 0.99]; tiny-complement = 0 < k'2 or alpha'2 <= 1e-15 (reachable only with the
-  // four-argument constructor); extreme = everything else of the lattice (-1e4, 1 - 1e-12, 1)
+  // four-argument constructor); alpha2-large-negative = alpha2 <= -100 (Pi, G, H are formed as K + alpha2 RJ/3 with heavy
+  // cancellation there); alpha2-near-one = 0 < alpha'2 <= 1e-6 (RJ with p << x,y,z near phi = pi/2); extreme = everything else of the lattice (k2 = -1e4, 1 - 1e-12, 1; alpha2 = 1 - 1e-12, 1)
   auto modr = [](double x) { return x >= -1 && x <= 0.99; };
   const double kp2v = o.four ? o.kp2 : 1 - o.k2, ap2v = o.four ? o.ap2 : 1 - o.a2;
-  const std::string reg = ((kp2v > 0 && kp2v <= 1e-15) || (ap2v > 0 && ap2v <= 1e-15)) ? "tiny-complement" : (modr(o.k2) && modr(o.a2) ? "moderate" : "extreme");
+  const std::string reg = (kp2v > 0 && kp2v < 1e-100) ? "kp2-below-1e-100" : ((kp2v > 0 && kp2v <= 1e-15) || (ap2v > 0 && ap2v <= 1e-15)) ? "tiny-complement" : (modr(o.k2) && modr(o.a2) ? "moderate" : (o.a2 <= -100 ? "alpha2-large-negative" : (ap2v > 0 && ap2v <= 1e-6 ? "alpha2-near-one" : "extreme")));
   auto tolk = [&](int k) { return C15tol(std::string("ellint.") + KN[k], reg); };
   const double TOL_JACOBI = C15tol("jacobi", reg), TOL_EINV = C15tol("ellint.Einv", reg), TOL_ED = C15tol("ellint.Ed", reg);
-  mc::Fields F0{{"k2", fmt(o.k2)}, {"alpha2", fmt(o.a2)}, {"ctor", o.four ? "4-arg" : "2-arg"}, {"regime", reg}};
+  mc::Fields F0{{"k2", fmt(o.k2)}, {"alpha2", fmt(o.a2)}, {"ctor", o.four ? "4-arg" : "2-arg"}, {"regime", reg},
+                {"complements", std::string(kp2v > 0 && kp2v < 1e-15 && ap2v > 0 && ap2v < 1e-15 ? "both-below-eps" : (kp2v > 0 && kp2v < 1e-100 ? "kp2-below-1e-100" : "ordinary"))}};
   auto FF = [&](const std::string& kind, const char* fn) { mc::Fields F = F0; F.push_back({"fn", fn}); F.push_back({"kind", kind}); return F; };
   const std::string ok = "ellint " + o.name;
   const bool kdep_only_done = o.a2 != 0;     // F, E, D do not depend on alpha2: compare them only on the alpha2 = 0 objects, still CALL them everywhere for state checks
@@ -506,16 +524,16 @@ static void check_ellint(Ctx& ctx, const Obj& o, bool thorough) {
   {
     Ctx::Case cs(ctx);
     if (!(e.k2() == o.k2 && e.alpha2() == o.a2 && e.kp2() == (o.four ? o.kp2 : 1 - o.k2) && e.alphap2() == (o.four ? o.ap2 : 1 - o.a2)))
-      ctx.fail(ok + " inspectors", "k2/kp2/alpha2/alphap2 inspectors do not return the constructor arguments", FF("inspectors", "-"));
+      cfail(ctx, ok + " inspectors", "k2/kp2/alpha2/alphap2 inspectors do not return the constructor arguments", FF("inspectors", "-"));
     EllipticFunction r(0.3, -0.7);
     if (o.four) r.Reset(o.k2, o.a2, o.kp2, o.ap2); else r.Reset(o.k2, o.a2);
     bool same = true;
     for (int k = 0; k < 6; ++k) same = same && (mc::same_bits(lib_complete(r, k), lib_complete(e, k)) || (std::isnan(lib_complete(r, k)) && std::isnan(lib_complete(e, k))));
     same = same && mc::same_bits(r.F(0.5), e.F(0.5)) && mc::same_bits(r.Pi(0.5), e.Pi(0.5)) && mc::same_bits(r.H(0.5), e.H(0.5)) && mc::same_bits(r.G(0.5), e.G(0.5));
-    if (!same) ctx.fail(ok + " reset", "object after Reset() differs from a freshly constructed one", FF("reset", "-"));
+    if (!same) cfail(ctx, ok + " reset", "object after Reset() differs from a freshly constructed one", FF("reset", "-"));
     double ke = e.KE(); Q keref = isinfq(c.complete(0)) ? ellf::inf() : m.k2 * c.complete(2);
     if (!(isinfq(keref) ? (std::isinf(ke) || o.k2 == 0) : std::fabs(ke - (double)keref) <= tolk(2) * EPS * std::fabs((double)keref)))
-      ctx.fail(ok + " KE", "KE() = " + fx(ke) + " but K - E = k^2 D = " + qs(keref), FF("complete-value", "KE"));
+      cfail(ctx, ok + " KE", "KE() = " + fx(ke) + " but K - E = k^2 D = " + qs(keref), FF("complete-value", "KE"));
   }
   // ---- complete integrals
   for (int k = 0; k < 6; ++k) {
@@ -523,8 +541,8 @@ static void check_ellint(Ctx& ctx, const Obj& o, bool thorough) {
     double got = lib_complete(e, k); Q ref = c.complete(k);
     std::string key = ok + " complete " + KN[k];
     double err = isinfq(ref) ? (std::isinf(got) && got > 0 ? 0 : INF) : (std::isnan(got) ? INF : (double)(fabsq((Q)got - ref) / fabsq(ref)));
-    ctx.worstf(std::string("ellint.complete_relerr_over_tol.") + KN[k] + "." + reg, err / (tolk(k) * EPS), [&] { return key; });
-    if (!(err <= tolk(k) * EPS)) ctx.fail(key, std::string(KN[k]) + "() = " + fx(got) + " but the defining integral is " + qs(ref) + " (" + fmt(err / EPS) + " eps)", FF("complete-value", KN[k]));
+    cworst(ctx, std::string("ellint.complete_relerr_over_tol.") + KN[k] + "." + reg + (bothtiny && k == 4 ? "/both-below-eps" : ""), err / (tolk(k) * EPS), [&] { return key; });
+    if (!(err <= tolk(k) * EPS)) cfail(ctx, key, std::string(KN[k]) + "() = " + fx(got) + " but the defining integral is " + qs(ref) + " (" + fmt(err / EPS) + " eps)", FF("complete-value", KN[k]));
   }
   // ---- incomplete integrals at an amplitude
   const double PI2 = 1.5707963267948966;
@@ -550,10 +568,10 @@ static void check_ellint(Ctx& ctx, const Obj& o, bool thorough) {
     if (std::fabs(phi) >= 3.14159) cond += fabsq((Q)phi) * c.complete(k) / hp;
     double err = std::isnan(got) ? INF : (double)((fabsq((Q)got - ref) - 2 * (Q)DMIN) / cond); if (err < 0) err = 0;
     if (ref == 0) err = got == 0 ? 0 : INF;
-    ctx.worstf(std::string("ellint.incomplete_err_over_tol.") + KN[k] + "." + reg, err / (tolk(k) * EPS), [&] { return key; });
-    if (!(err <= tolk(k) * EPS)) ctx.fail(key, std::string(KN[k]) + "(phi) = " + fx(got) + " but the defining integral is " + qs(ref) + " (" + fmt(err / EPS) + " eps of the conditioned magnitude " + qs(cond) + ")", FF("incomplete-value", KN[k]));
+    cworst(ctx, std::string("ellint.incomplete_err_over_tol.") + KN[k] + "." + reg + (bothtiny && k == 4 ? "/both-below-eps" : ""), err / (tolk(k) * EPS), [&] { return key; });
+    if (!(err <= tolk(k) * EPS)) cfail(ctx, key, std::string(KN[k]) + "(phi) = " + fx(got) + " but the defining integral is " + qs(ref) + " (" + fmt(err / EPS) + " eps of the conditioned magnitude " + qs(cond) + ")", FF("incomplete-value", KN[k]));
     // odd in phi
-    if (s > 0 && p0 != 0) { double neg = lib_inc(e, k, -phi); if (!(neg == -got)) ctx.fail(key + " odd", "not odd in phi: " + fx(got) + " vs " + fx(neg), FF("odd", KN[k])); }
+    if (s > 0 && p0 != 0) { double neg = lib_inc(e, k, -phi); if (!(neg == -got)) cfail(ctx, key + " odd", "not odd in phi: " + fx(got) + " vs " + fx(neg), FF("odd", KN[k])); }
     if (ctx.want_sample()) ctx.sample(key + " = " + fmt(got));
   }
   // ---- (sn, cn, dn) forms and the periodic parts, amplitudes in (-pi, pi]
@@ -572,8 +590,8 @@ static void check_ellint(Ctx& ctx, const Obj& o, bool thorough) {
       Q cond = fabsq(ref) + fabsq(f) * fabsq(cq) * fabsq(sq) + (fabsq(pq) > hp ? 2 * c.complete(k) : 0);
       double err = std::isnan(got) ? INF : (double)((fabsq((Q)got - ref) - 2 * (Q)DMIN) / cond); if (err < 0) err = 0;
       if (ref == 0) err = got == 0 ? 0 : INF;
-      ctx.worstf(std::string("ellint.sncndn_form_err_over_tol.") + KN[k] + "." + reg, err / (tolk(k) * EPS), [&] { return key; });
-      if (!(err <= tolk(k) * EPS)) ctx.fail(key, std::string(KN[k]) + "(sn,cn,dn) = " + fx(got) + " but the defining integral at atan2(sn,cn) is " + qs(ref) + " (" + fmt(err / EPS) + " eps)", FF("sncndn-form-value", KN[k]));
+      cworst(ctx, std::string("ellint.sncndn_form_err_over_tol.") + KN[k] + "." + reg + (bothtiny && k == 4 ? "/both-below-eps" : ""), err / (tolk(k) * EPS), [&] { return key; });
+      if (!(err <= tolk(k) * EPS)) cfail(ctx, key, std::string(KN[k]) + "(sn,cn,dn) = " + fx(got) + " but the defining integral at atan2(sn,cn) is " + qs(ref) + " (" + fmt(err / EPS) + " eps)", FF("sncndn-form-value", KN[k]));
     } else ctx.count("ellint_divergent_not_compared");
     // periodic part  delta X = (pi/2) X(phi)/X(pi/2) - phi, period pi
     Q Cc = c.complete(k);
@@ -585,11 +603,11 @@ static void check_ellint(Ctx& ctx, const Obj& o, bool thorough) {
       Q cond = fabsq(pr) + hp * fabsq(Ir) / Cc + hp / Cc * fabsq(f) * fabsq(cq) * fabsq(sq);
       double err = std::isnan(dg) ? INF : (double)((fabsq((Q)dg - dref) - 2 * (Q)DMIN) / cond); if (err < 0) err = 0;
       if (cond == 0) err = dg == 0 ? 0 : INF;
-      ctx.worstf(std::string("ellint.delta_err_over_tol.") + KN[k] + "." + reg, err / (tolk(k) * EPS), [&] { return key; });
-      if (!(err <= tolk(k) * EPS)) ctx.fail(key + " delta", std::string("delta") + KN[k] + " = " + fx(dg) + " but (pi/2) X(phi)/X(pi/2) - phi = " + qs(dref) + " (" + fmt(err / EPS) + " eps of " + qs(cond) + ")", FF("periodic-part", KN[k]));
+      cworst(ctx, std::string("ellint.delta_err_over_tol.") + KN[k] + "." + reg + (bothtiny && k == 4 ? "/both-below-eps" : ""), err / (tolk(k) * EPS), [&] { return key; });
+      if (!(err <= tolk(k) * EPS)) cfail(ctx, key + " delta", std::string("delta") + KN[k] + " = " + fx(dg) + " but (pi/2) X(phi)/X(pi/2) - phi = " + qs(dref) + " (" + fmt(err / EPS) + " eps of " + qs(cond) + ")", FF("periodic-part", KN[k]));
       // period pi: (sn, cn) -> (-sn, -cn)
       double dg2 = lib_delta(e, k, -sn, -cn, dn);
-      if (!(std::fabs(dg2 - dg) <= tolk(k) * EPS * (double)cond)) ctx.fail(key + " period", std::string("delta") + KN[k] + " is not pi-periodic: " + fx(dg) + " vs " + fx(dg2), FF("periodicity", KN[k]));
+      if (!(std::fabs(dg2 - dg) <= tolk(k) * EPS * (double)cond)) cfail(ctx, key + " period", std::string("delta") + KN[k] + " is not pi-periodic: " + fx(dg) + " vs " + fx(dg2), FF("periodicity", KN[k]));
     }
   }
   if (o.a2 != 0) return;          // the remaining functions depend on k only
@@ -602,8 +620,8 @@ static void check_ellint(Ctx& ctx, const Obj& o, bool thorough) {
     Q ref = c.inc0(1, fabsq(r)); if (r < 0) ref = -ref; ref += 2 * nq * c.complete(1);
     Q cond = fabsq(ref) + fabsq((Q)d) / 90 * c.complete(1) * 0 + fabsq(ellf::deriv(ellf::kE, m, r)) * fabsq(r);
     double err = (double)(fabsq((Q)got - ref) / (cond == 0 ? (Q)1 : cond));
-    ctx.worstf("ellint.Ed_err_over_tol." + reg, err / (TOL_ED * EPS), [&] { return key; });
-    if (!(err <= TOL_ED * EPS)) ctx.fail(key, "Ed = " + fx(got) + " but E(pi ang/180) = " + qs(ref) + " (" + fmt(err / EPS) + " eps)", FF("Ed-value", "Ed"));
+    cworst(ctx, "ellint.Ed_err_over_tol." + reg, err / (TOL_ED * EPS), [&] { return key; });
+    if (!(err <= TOL_ED * EPS)) cfail(ctx, key, "Ed = " + fx(got) + " but E(pi ang/180) = " + qs(ref) + " (" + fmt(err / EPS) + " eps)", FF("Ed-value", "Ed"));
   }
   // ---- Einv and deltaEinv
   {
@@ -623,16 +641,16 @@ static void check_ellint(Ctx& ctx, const Obj& o, bool thorough) {
       double err = std::isnan(got) ? INF : (double)(fabsq((Q)got - ref) / (cond == 0 ? (Q)1 : cond));
       if (dl == 0) { ctx.count("einv_singular_not_compared"); ctx.list("doc_silent", "Einv at x = E(k) (2n+1) for k = 1, where dE/dphi = 0"); }
       else {
-        ctx.worstf("ellint.Einv_err_over_tol." + reg, err / (TOL_EINV * EPS), [&] { return key; });
-        if (!(err <= TOL_EINV * EPS)) ctx.fail(key, "Einv = " + fx(got) + " but the inverse of the defining integral is " + qs(ref) + " (" + fmt(err / EPS) + " eps)", FF("Einv-value", "Einv"));
+        cworst(ctx, "ellint.Einv_err_over_tol." + reg, err / (TOL_EINV * EPS), [&] { return key; });
+        if (!(err <= TOL_EINV * EPS)) cfail(ctx, key, "Einv = " + fx(got) + " but the inverse of the defining integral is " + qs(ref) + " (" + fmt(err / EPS) + " eps)", FF("Einv-value", "Einv"));
       }
       // E(Einv(x)) = x
       double back = e.E(got);
       Q gs, gc; sincosq((Q)got, &gs, &gc); Q dg = sqrtq(ellf::delta2(m, gs, gc));
       Q cb = fabsq((Q)x) + dg * fabsq((Q)got);
       double eb = std::isnan(back) ? INF : (double)(fabsq((Q)back - (Q)x) / (cb == 0 ? (Q)1 : cb));
-      ctx.worstf("ellint.E_of_Einv_err_over_tol." + reg, eb / (TOL_EINV * EPS), [&] { return key; });
-      if (!(eb <= TOL_EINV * EPS)) ctx.fail(key + " roundtrip", "E(Einv(x)) = " + fx(back) + " for x = " + fx(x) + " (" + fmt(eb / EPS) + " eps)", FF("E-Einv-roundtrip", "Einv"));
+      cworst(ctx, "ellint.E_of_Einv_err_over_tol." + reg, eb / (TOL_EINV * EPS), [&] { return key; });
+      if (!(eb <= TOL_EINV * EPS)) cfail(ctx, key + " roundtrip", "E(Einv(x)) = " + fx(back) + " for x = " + fx(x) + " (" + fmt(eb / EPS) + " eps)", FF("E-Einv-roundtrip", "Einv"));
     }
     for (double tau : {0.0, 1e-8, 0.5, 1.0, PI2 - 1e-9, PI2, 2.5, -0.5, -1.5, -3.0}) {
       Ctx::Case cs(ctx);
@@ -645,8 +663,8 @@ static void check_ellint(Ctx& ctx, const Obj& o, bool thorough) {
       if (dl == 0) { ctx.count("einv_singular_not_compared"); continue; }
       Q cond = fabsq(tq) + fabsq(ph) + fabsq(x) / dl;
       double err = std::isnan(got) ? INF : (double)(fabsq((Q)got - ref) / (cond == 0 ? (Q)1 : cond));
-      ctx.worstf("ellint.deltaEinv_err_over_tol." + reg, err / (TOL_EINV * EPS), [&] { return key; });
-      if (!(err <= TOL_EINV * EPS)) ctx.fail(key, "deltaEinv = " + fx(got) + " but Einv(tau 2E/pi) - tau = " + qs(ref) + " (" + fmt(err / EPS) + " eps)", FF("periodic-part", "deltaEinv"));
+      cworst(ctx, "ellint.deltaEinv_err_over_tol." + reg, err / (TOL_EINV * EPS), [&] { return key; });
+      if (!(err <= TOL_EINV * EPS)) cfail(ctx, key, "deltaEinv = " + fx(got) + " but Einv(tau 2E/pi) - tau = " + qs(ref) + " (" + fmt(err / EPS) + " eps)", FF("periodic-part", "deltaEinv"));
     }
   }
   // ---- Jacobi amplitude and elliptic functions
@@ -660,20 +678,21 @@ static void check_ellint(Ctx& ctx, const Obj& o, bool thorough) {
       double x = s * x0;
       std::string key = ok + " am(" + fx(x) + ")";
       double sn = -7, cn = -7, dn = -7, am1 = e.am(x), am2 = e.am(x, sn, cn, dn);
-      if (!mc::same_bits(am1, am2)) ctx.fail(key + " overload", "am(x) and am(x,sn,cn,dn) return different amplitudes", FF("overload-differs", "am"));
+      if (!mc::same_bits(am1, am2)) cfail(ctx, key + " overload", "am(x) and am(x,sn,cn,dn) return different amplitudes", FF("overload-differs", "am"));
       Q ref = ellf::am(m, (Q)x), sq, cq; sincosq(ref, &sq, &cq); Q dq = sqrtq(ellf::delta2(m, sq, cq));
       // d am/dx = dn: a relative eps in x moves am by eps |x| dn; K itself is known to relative eps: eps |am|
       Q tolam = (fabsq(ref) + fabsq((Q)x) * dq) * TOL_JACOBI * EPS + 2 * (Q)DMIN;
       double err = std::isnan(am1) ? INF : (double)(fabsq((Q)am1 - ref) / tolam);
-      ctx.worstf("jacobi.am_err_over_tol." + reg, err, [&] { return key; });
-      if (!(err <= 1)) ctx.fail(key, "am = " + fx(am1) + " but inversion of the defining integral gives " + qs(ref) + " (" + fmt(err * TOL_JACOBI) + " eps of the conditioned magnitude)", FF("am-value", "am"));
+      cworst(ctx, "jacobi.am_err_over_tol." + reg, err, [&] { return key; });
+      if (!(err <= 1)) cfail(ctx, key, "am = " + fx(am1) + " but inversion of the defining integral gives " + qs(ref) + " (" + fmt(err * TOL_JACOBI) + " eps of the conditioned magnitude)", FF("am-value", "am"));
       auto chk3 = [&](const char* fn, double s_, double c_, double d_) {
         Q es = fabsq((Q)s_ - sq) / (fabsq(cq) * tolam + TOL_JACOBI * EPS * fabsq(sq) + 2 * (Q)DMIN), ec = fabsq((Q)c_ - cq) / (fabsq(sq) * tolam + TOL_JACOBI * EPS * fabsq(cq) + 2 * (Q)DMIN),
           ed = fabsq((Q)d_ - dq) / (fabsq(m.k2 * sq * cq) / (dq == 0 ? (Q)1 : dq) * tolam + TOL_JACOBI * EPS * dq + 2 * (Q)DMIN);
         double w = dmax(dmax((double)es, (double)ec), (double)ed);
         if (std::isnan(s_) || std::isnan(c_) || std::isnan(d_)) w = INF;
-        ctx.worstf(std::string("jacobi.") + fn + "_err_over_tol." + reg, w, [&] { return key; });
-        if (!(w <= 1)) ctx.fail(key + " " + fn, std::string(fn) + ": sn,cn,dn = " + fx(s_) + "," + fx(c_) + "," + fx(d_) + " but the definition gives " + qs(sq) + "," + qs(cq) + "," + qs(dq), FF("sncndn-value", fn));
+        cworst(ctx, std::string("jacobi.") + fn + "_err_over_tol." + reg, w, [&] { return key; });
+        if (!(w <= 1)) { mc::Fields F = FF("sncndn-value", fn); F.push_back({"x_class", std::fabs(x) < 1e-150 && x != 0 ? "tiny" : "ordinary"});
+          cfail(ctx, key + " " + fn, std::string(fn) + ": sn,cn,dn = " + fx(s_) + "," + fx(c_) + "," + fx(d_) + " but the definition gives " + qs(sq) + "," + qs(cq) + "," + qs(dq), F); }
       };
       chk3("am(x,sn,cn,dn)", sn, cn, dn);
       if (o.k2 >= 0) { double s2, c2, d2; e.sncndn(x, s2, c2, d2); chk3("sncndn", s2, c2, d2); }      // documented for k in [0,1]
@@ -684,20 +703,25 @@ static void check_ellint(Ctx& ctx, const Obj& o, bool thorough) {
 
 // ------------------------------------------------------------------ Carlson symmetric forms
 static void carlson_cmp(Ctx& ctx, const std::string& key, const char* fn, double got, Q ref, std::initializer_list<double> args) {
-  // regime: moderate = every non-zero argument in [1e-10, 1e10]; extreme otherwise
-  bool ext = false; for (double a : args) if (a != 0 && (a < 1e-10 || a > 1e10)) ext = true;
-  const char* reg = ext ? "extreme" : "moderate";
+  // regime: compact = non-zero arguments within a factor 4 of each other; spread = within [1e-10, 1e10]; extreme otherwise
+  bool ext = false; double mn = INF, mx = 0; for (double a : args) if (a != 0) { if (a < 1e-10 || a > 1e10) ext = true; if (a < mn) mn = a; if (a > mx) mx = a; }
+  const char* reg = ext ? "extreme" : (mx <= 4 * mn ? "compact" : "spread");
   const double TOL_CARLSON = C15tol(std::string("carlson.") + fn, reg);
   double err;
   // a true value outside the double range must come out as 0/denormal resp. inf
   if (ref > (Q)1.7976931348623157e308) err = (got == INF || got > 1e308) ? 0 : INF;
   else if (ref < (Q)2.2250738585072014e-308) err = (std::fabs(got - (double)ref) <= 4 * DMIN + 64 * EPS * (double)ref) ? 0 : INF;
   else err = std::isnan(got) ? INF : (double)(fabsq((Q)got - ref) / ref);
-  ctx.worstf(std::string("carlson.") + fn + "_relerr_over_tol." + reg, err / (TOL_CARLSON * EPS), [&] { return key; });
+  // cases inside a known-defect input class are tallied under their own worst{} key
+  std::string wreg = reg;
+  if (!strcmp(fn, "RG") && args.size() == 3) { const double* a = args.begin(); if ((a[0] - a[2]) * (a[1] - a[2]) > 0) wreg += "/z-not-between-x-y"; }
+  if (!strcmp(fn, "RJ")) { const double* a = args.begin(); if (a[3] * 1e5 <= dmax(dmax(a[0], a[1]), a[2])) wreg += "/p-much-smaller"; }
+  cworst(ctx, std::string("carlson.") + fn + "_relerr_over_tol." + wreg, err / (TOL_CARLSON * EPS), [&] { return key; });
   if (!(err <= TOL_CARLSON * EPS)) {
     mc::Fields F{{"fn", fn}, {"regime", reg}, {"kind", std::isnan(got) ? "carlson-nan" : "carlson-value"}};
     if (!strcmp(fn, "RG") && args.size() == 3) { const double* a = args.begin(); F.push_back({"rg_order", (a[0] - a[2]) * (a[1] - a[2]) > 0 ? "z-not-between-x-y" : "z-between-x-y"}); }
-    ctx.fail(key, std::string(fn) + " = " + fx(got) + " but the defining integral is " + qs(ref) + " (" + fmt(err / EPS) + " eps)", F);
+    if (!strcmp(fn, "RJ")) { const double* a = args.begin(); double mx = dmax(dmax(a[0], a[1]), a[2]); F.push_back({"p_class", a[3] * 1e5 <= mx ? "p-much-smaller" : "p-comparable"}); }
+    cfail(ctx, key, std::string(fn) + " = " + fx(got) + " but the defining integral is " + qs(ref) + " (" + fmt(err / EPS) + " eps)", F);
   }
 }
 
@@ -740,12 +764,11 @@ int main(int argc, char** argv) {
     std::vector<Obj> objs;
     for (double k2 : K2) for (double a2 : K2) objs.push_back({"k2=" + fmt(k2) + " alpha2=" + fmt(a2), k2, a2, 1 - k2, 1 - a2, false});
     // four-argument constructor: complements that the two-argument form cannot represent
-    const double tiny[] = {1e-20, 1e-300};
-    for (double kp : tiny) for (double ap : {1e-20, 0.25, 1.0})
-      objs.push_back({"k2=1-" + fmt(kp) + " alpha2=1-" + fmt(ap) + " (4-arg)", 1.0, 1 - ap, kp, ap, true});
+    for (double ap : {1e-20, 3e-20, 0.25, 1.0}) objs.push_back({"k2=1-1e-20 alpha2=1-" + fmt(ap) + " (4-arg)", 1.0, 1 - ap, 1e-20, ap, true});
+    objs.push_back({"k2=1-1e-300 alpha2=0 (4-arg)", 1.0, 0.0, 1e-300, 1.0, true});
     objs.push_back({"k2=0.5 alpha2=1-1e-25 (4-arg)", 0.5, 1.0, 0.5, 1e-25, true});
     objs.push_back({"k2=-3 alpha2=0.75 (4-arg)", -3, 0.75, 4, 0.25, true});
-    ctx.bound("ellint.parameters", std::string("k2, alpha2 each in ") + (T ? "{-1e4,-1,-0.1,0,1e-10,0.5,0.99,1-1e-12,1}" : "{-1e4,-0.1,0,0.5,1-1e-12,1}") + " (all pairs, 2-argument constructor) + 8 objects of the 4-argument constructor with k'2, alpha'2 down to 1e-300");
+    ctx.bound("ellint.parameters", std::string("k2, alpha2 each in ") + (T ? "{-1e4,-1,-0.1,0,1e-10,0.5,0.99,1-1e-12,1}" : "{-1e4,-0.1,0,0.5,1-1e-12,1}") + " (all pairs, 2-argument constructor) + 7 objects of the 4-argument constructor (k'2 = 1e-20 with alpha'2 in {1e-20, 3e-20, 1/4, 1}; k'2 = 1e-300; alpha'2 = 1e-25; k2 = -3)");
     ctx.bound("ellint.arguments", std::string("phi: +-{0,1e-8,0.5,pi/2,pi/2-1e-9,pi/2+1e-9,3,20") + (T ? ",1e-300,1e-3,1,1.5,pi/2-+1e-5,2,pi,4,2pi,7.5,100" : "") + "}; (sn,cn,dn) forms and delta-functions at 19 amplitudes in (-pi,pi]; Ed at 15 angles; Einv, am, sncndn at x: +-{0,1e-8,0.5,near and at the quarter period,3,20,...}");
     ctx.sub("elliptic");
     for (const Obj& o : objs) { if (!ctx.take()) continue; check_ellint(ctx, o, T); }
